@@ -249,9 +249,20 @@ def r4(ctx):
     # wiring in the front ends
     for short, q in (("__main__", "_main"), ("coverage.__main__", "cli")):
         g = repo.func(short, q)
-        adds = [c for c in g.calls() if isinstance(c.func, ast.Attribute) and c.func.attr == "addFilter" and u(c.args[0]) == "aggregator"]
+        adds = [c for c in g.calls() if isinstance(c.func, ast.Attribute) and c.func.attr == "addFilter" and len(c.args) == 1 and u(c.args[0]) in ("aggregator", "warning_aggregator", "filter_")]
         key = f"{g.key}:aggregator-on-one-handler"
-        ok = len(adds) == 1 and u(adds[0].func.value) == "file_handler"
+
+        def _is_file_handler(call):
+            # the receiver is the log-file handler: named so, or built by logging.FileHandler(...) in the same function
+            if u(call.func.value) == "file_handler":
+                return True
+            for fn in [g] + g.new_helpers():
+                if any(x is call for x in ast.walk(fn.node)):
+                    name = u(call.func.value)
+                    return any(isinstance(s_, ast.Assign) and u(s_.targets[0]) == name and isinstance(s_.value, ast.Call) and u(s_.value.func).endswith("FileHandler") for s_ in ast.walk(fn.node))
+            return False
+
+        ok = len(adds) == 1 and _is_file_handler(adds[0])
         ctx.check(ok, key, f"the aggregator must be a filter of exactly one handler (the log-file handler): installed on {[u(c.func.value) for c in adds]} - every additional handler (or the logger itself) counts each warning again", g.loc())
         made = [s for s in walk_no_nested(g.node) if isinstance(s, ast.Assign) and u(s.targets[0]) == "aggregator"]
         ctx.soft(len(made) == 1 and u(made[0].value) == "WarningAggregator()", f"{g.key}:aggregator-fresh", "a fresh WarningAggregator per run", g.loc())
